@@ -44,6 +44,12 @@ func declMatrix() []declCase {
 	add("enum", "enum Status {\n  option ACTIVE\n  option INACTIVE\n}\n")
 	add("enum explicit unspecified", "enum Status {\n  option UNSPECIFIED | Initial Status\n  option ACTIVE\n}\n")
 	add("enum prefix", "enum Status {\n  prefix = \"ST_\"\n  option ACTIVE\n}\n")
+	// enum value names with and without the enum's prefix (default prefix = the enum's name in upper snake case; explicit
+	// `prefix`): options and the values of rules.in / rules.notIn may be written either way
+	add("enum rule values written with the default prefix", "enum Status {\n  option ACTIVE\n  option INACTIVE\n}\n\nobject Foo {\n  field s enum:Status {\n    rules.in = [\"STATUS_ACTIVE\"]\n  }\n  field t enum:Status {\n    rules.notIn = [\"STATUS_INACTIVE\", \"ACTIVE\"]\n  }\n  field ts array:enum:Status {\n    items.enum.rules.in = [\"STATUS_INACTIVE\"]\n  }\n}\n")
+	add("enum rule values written with an explicit prefix", "enum Status {\n  prefix = \"ST_\"\n  option ACTIVE\n  option INACTIVE\n}\n\nobject Foo {\n  field s enum:Status {\n    rules.in = [\"ST_ACTIVE\", \"INACTIVE\"]\n  }\n}\n")
+	add("enum options written with the prefix", "enum Status {\n  option STATUS_UNSPECIFIED\n  option STATUS_ACTIVE\n  option INACTIVE\n}\n\nobject Foo {\n  field s enum:Status {\n    rules.in = [\"ACTIVE\", \"STATUS_INACTIVE\"]\n  }\n}\n")
+	add("inline enum rule values written with the prefix", "object Foo {\n  field kind enum {\n    option A\n    option B\n    rules.in = [\"KIND_B\", \"A\"]\n  }\n}\n")
 	add("enum empty", "enum Status {\n}\n")
 	add("enum info fields", "enum Status {\n  info color {\n    label = \"Color\"\n    description = \"the colour\"\n  }\n  option ACTIVE\n}\n")
 	add("enum option info", "enum Status {\n  option ACTIVE {\n    info.color = \"red\"\n  }\n}\n")
